@@ -22,8 +22,8 @@ Proof.
   intro H. unfold level_reports.
   assert (G : forall s, flat_map (fun l => match wl l with
                                           | WOk => []
-                                          | WEio | WShort true => [mkWR (report_due m (lag pos l) it) 1 0 pos]
-                                          | WErr | WShort false => [mkWR (report_due m (lag pos l) it) 0 1 pos]
+                                          | WEio => [mkWR (report_due m (lag pos l) it) 1 0 pos]
+                                          | WErr | WShort => [mkWR (report_due m (lag pos l) it) 0 1 pos]
                                           end) (seq s nl) = []).
   { induction nl as [|n IH]; intro s; simpl; [reflexivity|]. rewrite H. apply IH. }
   apply G.
@@ -32,7 +32,7 @@ Qed.
 Lemma level_reports_nonzero m lag it pos wl nl : Forall (fun w => rep_nonzero w = true) (level_reports m lag it pos wl nl).
 Proof.
   unfold level_reports. apply Forall_forall. intros w Hin. apply in_flat_map in Hin. destruct Hin as [l [_ Hin]].
-  destruct (wl l) as [| | |[|]]; [destruct Hin | destruct Hin as [<-|[]]; reflexivity | destruct Hin as [<-|[]]; reflexivity | destruct Hin as [<-|[]]; reflexivity | destruct Hin as [<-|[]]; reflexivity].
+  destruct (wl l); [destruct Hin | destruct Hin as [<-|[]]; reflexivity | destruct Hin as [<-|[]]; reflexivity | destruct Hin as [<-|[]]; reflexivity].
 Qed.
 
 Lemma level_reports_mono_due lag it pos wl nl :
@@ -40,7 +40,7 @@ Lemma level_reports_mono_due lag it pos wl nl :
 Proof.
   unfold level_reports. generalize (seq 0 nl) as ls. induction ls as [|l t IH]; [reflexivity|].
   cbn [flat_map]. rewrite filter_app, IH, app_nil_r.
-  destruct (wl l) as [| | |[|]]; cbn [filter]; [reflexivity | | | |];
+  destruct (wl l); cbn [filter]; [reflexivity | | |];
     unfold is_due, report_due; cbn [wr_due]; rewrite Nat.leb_refl; reflexivity.
 Qed.
 
@@ -428,7 +428,7 @@ Proof. intros [i [E B]]. unfold recorded_healthy. rewrite E, B. simpl. apply and
 Lemma level_reports_pos m lag it pos wl nl w : In w (level_reports m lag it pos wl nl) -> wr_pos w = pos.
 Proof.
   unfold level_reports. intro H. apply in_flat_map in H. destruct H as [l [_ H]].
-  destruct (wl l) as [| | |[|]]; [destruct H | destruct H as [<-|[]]; reflexivity | destruct H as [<-|[]]; reflexivity | destruct H as [<-|[]]; reflexivity | destruct H as [<-|[]]; reflexivity].
+  destruct (wl l); [destruct H | destruct H as [<-|[]]; reflexivity | destruct H as [<-|[]]; reflexivity | destruct H as [<-|[]]; reflexivity].
 Qed.
 
 Section Safe.
@@ -514,21 +514,21 @@ Qed.
 (* ---------------------------------------------------------------------------------------------------------------- *)
 (* parity_write accepts a pwrite iff the whole block was transferred; the pre-hash phase fails on any read problem    *)
 (* ---------------------------------------------------------------------------------------------------------------- *)
-Lemma classify_pwrite_ok bs stale r : classify_pwrite bs stale r = WOk <-> r = PwCount bs.
+Lemma classify_pwrite_ok bs r : classify_pwrite bs r = WOk <-> r = PwCount bs.
 Proof.
   split.
   - destruct r as [n|[|]]; simpl; try discriminate. destruct (N.eqb n bs) eqn:E; [|discriminate]. apply N.eqb_eq in E. subst. reflexivity.
   - intros ->. simpl. rewrite N.eqb_refl. reflexivity.
 Qed.
-Lemma classify_short_reported bs stale n m lag it pos nl l :
+(* a short count is reported as the fatal (non-EIO) kind, like ENOSPC *)
+Lemma classify_short_reported bs n m lag it pos nl l :
   n <> bs -> l < nl ->
-  In pos (map wr_pos (level_reports m lag it pos (fun k => if Nat.eqb k l then classify_pwrite bs stale (PwCount n) else WOk) nl)).
+  In (mkWR (report_due m (lag pos l) it) 0 1 pos)
+     (level_reports m lag it pos (fun k => if Nat.eqb k l then classify_pwrite bs (PwCount n) else WOk) nl).
 Proof.
-  intros Hn Hl. unfold level_reports. apply in_map_iff.
-  exists (if stale then mkWR (report_due m (lag pos l) it) 1 0 pos else mkWR (report_due m (lag pos l) it) 0 1 pos).
-  split; [destruct stale; reflexivity|].
+  intros Hn Hl. unfold level_reports.
   apply in_flat_map. exists l. split; [apply in_seq; lia|]. rewrite Nat.eqb_refl. simpl.
-  destruct (N.eqb n bs) eqn:E; [apply N.eqb_eq in E; contradiction|]. destruct stale; left; reflexivity.
+  destruct (N.eqb n bs) eqn:E; [apply N.eqb_eq in E; contradiction | left; reflexivity].
 Qed.
 
 Lemma hash_step_counts a x : h_nerr a + h_nsilent a + h_nio a <= h_nerr (hash_step a x) + h_nsilent (hash_step a x) + h_nio (hash_step a x).
